@@ -41,6 +41,7 @@ def run_scenario(item):
         w.start(text=file_text(w, 'A', ports), port=w.port)
         clients = {}
         txconn = {}
+        parked = []
         ctl = Client(w.port, db='db2', name='CTL', timeout=4.0)
         ctl.query('SELECT 0')
 
@@ -103,6 +104,31 @@ def run_scenario(item):
                 if not w.alive():
                     out['notes'].append('pgcat died during reload')
                     break
+            elif op == 'pause':
+                w.admin_cmd('PAUSE db1,u', timeout=4.0)
+            elif op == 'park':
+                # a new transaction while PAUSE is in force: the first statement is sent, no reply is expected yet
+                c = client(st['c'])
+                if c is not None and not c.dead:
+                    c.send(W.Q('BEGIN ' + c.tag()))
+                    parked.append(st['c'])
+                    time.sleep(0.05)
+            elif op == 'resume':
+                w.admin_cmd('RESUME db1,u', timeout=4.0)
+                for n in parked:
+                    c = clients.get(n)
+                    rep = c.read_reply(timeout=4.0)
+                    if rep.end != 'Z' or rep.errors:
+                        recs.append({'ev': 'txstart', 'c': n, 'landed': 'none', 'reply': ('held by PAUSE, after RESUME: ' + rep.brief())[:100]})
+                        txconn[n] = None
+                        if rep.end != 'Z':
+                            c.dead = True
+                        continue
+                    rep = c.query('SELECT 1')
+                    be, conn = landing(rep)
+                    recs.append({'ev': 'txstart', 'c': n, 'landed': be, 'reply': rep.brief()[:100]})
+                    txconn[n] = conn
+                parked = []
             elif op == 'txstart':
                 c = client(st['c'])
                 if c is None or c.dead:
@@ -169,7 +195,7 @@ def check_c14(prop, tier, seed):
     v.add_mc('mc:design', res)
     if res.rc != 0:
         v.tool_error('Reload design rc=%d %s' % (res.rc, res.errors()[:2]))
-    for d in ('invalid_file_applied', 'tx_follows_reload', 'removed_pool_falls_back'):
+    for d in ('invalid_file_applied', 'tx_follows_reload', 'removed_pool_falls_back', 'parked_tx_uses_old_pool'):
         r2 = tlc.run_tlc('Reload', 'MC_Reload_dev_%s.cfg' % d, workers=8)
         v.add_mc('mc:dev:' + d, r2)
         if not r2.invariant_violated:
@@ -194,12 +220,18 @@ def check_c14(prop, tier, seed):
     def feat(s):
         f = []
         cur = 'A'
+        eff = 'A'
+        held = set()
         intx = set()
         for x in s:
             if x['op'] == 'write':
                 cur = x['f']
             elif x['op'] == 'reload':
                 f.append('reload:%s:%s' % (cur, 'intx' if intx else 'idle'))
+                if cur in ('A', 'B', 'R', 'absent') and cur != eff:
+                    eff = cur
+                    if held:
+                        f.append('held_across_change')
             elif x['op'] == 'txstart':
                 intx.add(x['c'])
                 f.append('txstart_after' if any(y.startswith('reload') for y in f) else 'txstart')
@@ -207,8 +239,16 @@ def check_c14(prop, tier, seed):
                 f.append('step_after_reload')
             elif x['op'] == 'txend':
                 intx.discard(x['c'])
+            elif x['op'] == 'park':
+                f.append('park')
+                held.add(x['c'])
+            elif x['op'] == 'resume':
+                if 'park' in f and any(y.startswith('reload') for y in f):
+                    f.append('held_across_reload')
+                held = set()
         return tuple(sorted(set(f)))
-    useful = [s for s in scen if any(x['op'] == 'reload' for x in s) and any(x['op'] == 'txstart' for x in s)]
+    useful = [s for s in scen if any(x['op'] == 'reload' for x in s) and any(x['op'] in ('txstart', 'park') for x in s)
+              and (not any(x['op'] == 'park' for x in s) or any(x['op'] == 'resume' for x in s))]
     byf = {}
     for s in useful:
         byf.setdefault(feat(s), []).append(s)
@@ -217,7 +257,13 @@ def check_c14(prop, tier, seed):
     for k in keys:
         rng.shuffle(byf[k])
     n = {'quick': 260, 'thorough': 4000}[tier]
-    chosen = []
+    # a quota for the rarest interplay: a transaction held by PAUSE while a reload changes its pool
+    special = [s2 for k in keys if 'held_across_change' in k for s2 in byf[k]]
+    rng.shuffle(special)
+    chosen = special[:n // 6]
+    picked = {json.dumps(s2) for s2 in chosen}
+    for k in keys:
+        byf[k] = [s2 for s2 in byf[k] if json.dumps(s2) not in picked]
     i = 0
     while len(chosen) < n:
         progressed = False
